@@ -104,8 +104,10 @@ func TestMain(m *testing.M) {
 // ---- steps and histories ------------------------------------------------------
 
 type step struct {
-	Op     string    `json:"op"` // set | del | query
+	Op     string    `json:"op"` // set | del | touch | query
 	ID     string    `json:"id,omitempty"`
+	Kind   string    `json:"kind,omitempty"` // touch: fset | expire | persist (same geometry, new object)
+	Val    string    `json:"val,omitempty"`  // touch fset: value of field f
 	Obj    *objSpec  `json:"obj,omitempty"`
 	Pred   string    `json:"pred,omitempty"` // within | intersects
 	Sparse int       `json:"sparse,omitempty"`
@@ -126,7 +128,11 @@ type backend interface {
 	reset()
 	set(id string, spec objSpec, obj geojson.Object) error
 	del(id string) error
-	// search runs the indexed search.
+	// touch replaces the object by a new one with the very same geometry value
+	// and other fields / expiry, as FSET, EXPIRE and PERSIST do.
+	touch(id, kind, val string) error
+	// search runs the indexed search. A staleErr means the search delivered an
+	// object (or fields) that is not the current one of that id.
 	search(pred string, sparse int, area areaSpec, clipped geojson.Object) ([]string, error)
 	// oracle evaluates the predicate for every object without the index.
 	// skip != "" means the oracle is not available for this query.
@@ -151,6 +157,32 @@ func (b *colBackend) del(id string) error {
 	return nil
 }
 
+func (b *colBackend) touch(id, kind, val string) error {
+	old := b.col.Get(id)
+	if old == nil {
+		return nil
+	}
+	fields, expires := old.Fields(), old.Expires()
+	switch kind {
+	case "fset":
+		fields = fields.Set(field.Make("f", val))
+	case "expire":
+		expires = 1 << 62
+	case "persist":
+		if expires == 0 {
+			return nil // cmdPERSIST leaves such an object alone
+		}
+		expires = 0
+	}
+	// exactly what cmdFSET/cmdEXPIRE/cmdPERSIST do: same geometry value, new object
+	b.col.Set(object.New(id, old.Geo(), expires, fields))
+	return nil
+}
+
+type staleErr struct{ msg string }
+
+func (e staleErr) Error() string { return e.msg }
+
 func (b *colBackend) get(key, id string) geojson.Object {
 	if o := b.col.Get(id); o != nil {
 		return o.Geo()
@@ -160,13 +192,24 @@ func (b *colBackend) get(key, id string) geojson.Object {
 
 func (b *colBackend) search(pred string, sparse int, area areaSpec, clipped geojson.Object) ([]string, error) {
 	var ids []string
-	iter := func(o *object.Object) bool { ids = append(ids, o.ID()); return true }
+	var stale error
+	iter := func(o *object.Object) bool {
+		ids = append(ids, o.ID())
+		if cur := b.col.Get(o.ID()); cur != o && stale == nil {
+			what := "an id that Get does not know"
+			if cur != nil {
+				what = fmt.Sprintf("a superseded object (fields %v, current %v)", o.Fields(), cur.Fields())
+			}
+			stale = staleErr{fmt.Sprintf("the search delivered for %q %s", o.ID(), what)}
+		}
+		return true
+	}
 	if pred == "within" {
 		b.col.Within(clipped, uint8(sparse), nil, nil, iter)
 	} else {
 		b.col.Intersects(clipped, uint8(sparse), nil, nil, iter)
 	}
-	return ids, nil
+	return ids, stale
 }
 
 func (b *colBackend) oracle(pred string, area areaSpec, clipped geojson.Object) (map[string]bool, int, string) {
@@ -192,6 +235,8 @@ func (b *colBackend) oracle(pred string, area areaSpec, clipped geojson.Object) 
 type srvBackend struct {
 	c    *t38.Conn
 	objs map[string]geojson.Object // harness mirror (labels, GET refs for pre-clipping)
+	fld  map[string]string         // model: current value of field f per id (SET keeps fields)
+	nTch int
 }
 
 func (b *srvBackend) reset() {
@@ -199,6 +244,8 @@ func (b *srvBackend) reset() {
 		panic("FLUSHDB: " + v.String())
 	}
 	b.objs = map[string]geojson.Object{}
+	b.fld = map[string]string{}
+	b.nTch = 0
 }
 
 func (b *srvBackend) set(id string, spec objSpec, obj geojson.Object) error {
@@ -222,6 +269,33 @@ func (b *srvBackend) del(id string) error {
 		return fmt.Errorf("DEL %s answered %s", id, v)
 	}
 	delete(b.objs, id)
+	delete(b.fld, id)
+	return nil
+}
+
+func (b *srvBackend) touch(id, kind, val string) error {
+	var args []string
+	switch kind {
+	case "fset":
+		args = []string{"FSET", theKey, id, "f", val}
+	case "expire":
+		args = []string{"EXPIRE", theKey, id, "100000"}
+	default:
+		args = []string{"PERSIST", theKey, id}
+	}
+	v, err := b.c.Do(args...)
+	if err != nil {
+		return err
+	}
+	if v.Kind != ':' {
+		return fmt.Errorf("%v answered %s", args, v)
+	}
+	if kind == "fset" {
+		if _, ok := b.objs[id]; ok {
+			b.fld[id] = val
+		}
+	}
+	b.nTch++
 	return nil
 }
 
@@ -279,6 +353,40 @@ func (b *srvBackend) search(pred string, sparse int, area areaSpec, clipped geoj
 			return nil, fmt.Errorf("COUNT output %s differs from %d ids", cv, len(ids))
 		}
 	}
+	if b.nTch > 0 {
+		// the same search with an output that carries the fields: every returned
+		// object must show the current value of field f
+		fargs := append([]string{}, args...)
+		for i, a := range fargs {
+			if a == "IDS" && i >= 2 {
+				fargs[i] = "POINTS"
+				break
+			}
+		}
+		fv, err := b.c.Do(fargs...)
+		if err != nil {
+			return nil, err
+		}
+		if fv.Kind != '*' || len(fv.Arr) != 2 || fv.Arr[1].Kind != '*' || len(fv.Arr[1].Arr) != len(ids) {
+			return ids, staleErr{fmt.Sprintf("the POINTS form of the search returned %s for %d ids", fv, len(ids))}
+		}
+		for i, e := range fv.Arr[1].Arr {
+			if e.Kind != '*' || len(e.Arr) < 2 || e.Arr[0].Str != ids[i] {
+				return ids, staleErr{fmt.Sprintf("the POINTS form of the search returned element %s where IDS returned %q", e, ids[i])}
+			}
+			got := ""
+			if len(e.Arr) == 3 && e.Arr[2].Kind == '*' {
+				for j := 0; j+1 < len(e.Arr[2].Arr); j += 2 {
+					if e.Arr[2].Arr[j].Str == "f" {
+						got = e.Arr[2].Arr[j+1].Str
+					}
+				}
+			}
+			if got != b.fld[ids[i]] {
+				return ids, staleErr{fmt.Sprintf("the search shows field f=%q for %q, its current value is %q", got, ids[i], b.fld[ids[i]])}
+			}
+		}
+	}
 	return ids, nil
 }
 
@@ -334,19 +442,21 @@ func (b *srvBackend) oracle(pred string, area areaSpec, clipped geojson.Object) 
 // ---- the machine: applies steps, compares, collects evidence -----------------------
 
 type machine struct {
-	t     ev.Failer
-	c     *ev.Collector
-	be    backend
-	hist  *history
-	live  map[string]geojson.Object
-	ids   []string // live ids in a deterministic order
-	pos   map[string]int
-	h     uint64 // running hash of the applied steps
-	nDel  int
-	nMove int
-	inex  int // live objects whose float64 box is not its float32 box
-	nextN int
-	nan   bool // an object with a NaN box has been stored in this history
+	t        ev.Failer
+	c        *ev.Collector
+	be       backend
+	hist     *history
+	live     map[string]geojson.Object
+	ids      []string // live ids in a deterministic order
+	pos      map[string]int
+	h        uint64 // running hash of the applied steps
+	nDel     int
+	nMove    int
+	inex     int // live objects whose float64 box is not its float32 box
+	nextN    int
+	nan      bool // an object with a NaN box has been stored in this history
+	touchSeq int
+	nTouch   int // geometry-preserving updates (FSET/EXPIRE/PERSIST) so far
 }
 
 func newMachine(t ev.Failer, c *ev.Collector, be backend, level, poolMode string) *machine {
@@ -438,6 +548,12 @@ func (m *machine) apply(st step) {
 			delete(m.live, st.ID)
 		}
 		m.mix("del", st.ID)
+	case "touch":
+		if err := m.be.touch(st.ID, st.Kind, st.Val); err != nil {
+			m.harnessErr("%v", err)
+		}
+		m.nTouch++
+		m.mix("touch", st.ID, st.Kind, st.Val)
 	case "query":
 		m.mix("query", st.Pred, strconv.Itoa(st.Sparse), strings.Join(st.Area.cmdArgs(), " "))
 		m.query(st)
@@ -616,6 +732,10 @@ func (m *machine) query(st step) {
 	}
 
 	got, err := m.be.search(st.Pred, st.Sparse, area, clipped)
+	if se, ok := err.(staleErr); ok {
+		c.Fail(m.t, "stale-object-returned", fmt.Sprintf("%s %s sparse=%d (after %d deletes, %d overwrites, %d FSET/EXPIRE/PERSIST updates): %s",
+			strings.ToUpper(st.Pred), strings.Join(area.cmdArgs(), " "), st.Sparse, m.nDel, m.nMove, m.nTouch, se.msg), m.hist)
+	}
 	if err != nil {
 		if se, ok := err.(searchErr); ok {
 			c.Fail(m.t, "search-rejects-area:"+area.kind(), fmt.Sprintf("%s %v answered %q although TEST accepts the same area", st.Pred, area.cmdArgs(), se.msg), m.hist)
@@ -683,6 +803,9 @@ func (m *machine) query(st step) {
 	}
 
 	// evidence
+	if m.nTouch > 0 {
+		c.Label("after-fset/expire/persist")
+	}
 	if st.Sparse > 0 {
 		c.Label("sparse")
 		if len(got) < len(want) {
@@ -810,6 +933,18 @@ func generate(rt *rapid.T, m *machine, server bool, s sizes) {
 		}
 		return m.ids[rapid.IntRange(0, len(m.ids)-1).Draw(t, "live")]
 	}
+	// FSET/EXPIRE/PERSIST only keep the geometry value for objects that are not
+	// plain 2D points: prefer those
+	pickExtended := func(t *rapid.T) string {
+		id := pickLive(t)
+		for try := 0; try < 3; try++ {
+			if pt, ok := m.live[id].(*geojson.Point); !ok || !pt.IsSimple() {
+				break
+			}
+			id = pickLive(t)
+		}
+		return id
+	}
 	doQuery := func(t *rapid.T, pred string, sparse int) {
 		a := p.area(t, server, theKey, m.ids)
 		if pred == "within" {
@@ -875,6 +1010,20 @@ func generate(rt *rapid.T, m *machine, server bool, s sizes) {
 				}
 			}
 		},
+		"touch": func(t *rapid.T) {
+			m.apply(m.drawTouch(t, pickExtended(t)))
+		},
+		"bulk-touch": func(t *rapid.T) {
+			if len(m.ids) < 2 {
+				t.Skip()
+			}
+			cnt := rapid.IntRange(1, imin(len(m.ids), 100)).Draw(t, "cnt")
+			lo := rapid.IntRange(0, len(m.ids)-cnt).Draw(t, "lo")
+			victims := append([]string{}, m.ids[lo:lo+cnt]...)
+			for _, id := range victims {
+				m.apply(m.drawTouch(t, id))
+			}
+		},
 		"bulk-move": func(t *rapid.T) {
 			if len(m.ids) < 2 {
 				t.Skip()
@@ -908,6 +1057,12 @@ func generate(rt *rapid.T, m *machine, server bool, s sizes) {
 	}
 }
 
+func (m *machine) drawTouch(t *rapid.T, id string) step {
+	kind := rapid.SampledFrom([]string{"fset", "expire", "persist", "fset"}).Draw(t, "touchkind")
+	m.touchSeq++
+	return step{Op: "touch", ID: id, Kind: kind, Val: strconv.Itoa(m.touchSeq)}
+}
+
 func imin(a, b int) int {
 	if a < b {
 		return a
@@ -922,7 +1077,7 @@ func imax(a, b int) int {
 	return b
 }
 
-const ruleText = "history = bulk load of n objects (POINT, POINT z, BOUNDS, HASH, GeoJSON Point/LineString/Polygon incl. holes/Multi*/GeometryCollection incl. empty/Feature/FeatureCollection, STRING) over a coordinate pool (uniform world, 1e-1..1e-12 clusters, pole and antimeridian neighbourhoods, half-degree grid; every base value with its exact, +-1 ulp64, float32-round-down/up and +-1 ulp32 neighbours), then a rapid state machine of set-new / move (overwrite, kind change) / delete / bulk-delete (id run, spatial region, every other) / bulk-move / bulk-insert / query actions; query areas (BOUNDS, CIRCLE, SECTOR, TILE, QUADKEY, HASH, POINT, GET key id, OBJECT geojson, each optionally CLIPBY 1-2 rectangles; SPARSE 1-4) take their edges from the same pool. One evaluation = one query compared as an id set with the index-free evaluation over every object. Non-trivial: the index-free set is neither empty nor everything AND the history has >=1 delete and >=1 overwrite AND >=1 live object whose float64 box is not float32-representable; distinct by hash of (whole history so far, query)."
+const ruleText = "history = bulk load of n objects (POINT, POINT z, BOUNDS, HASH, GeoJSON Point/LineString/Polygon incl. holes/Multi*/GeometryCollection incl. empty/Feature/FeatureCollection, STRING) over a coordinate pool (uniform world, 1e-1..1e-12 clusters, pole and antimeridian neighbourhoods, half-degree grid; every base value with its exact, +-1 ulp64, float32-round-down/up and +-1 ulp32 neighbours), then a rapid state machine of set-new / move (overwrite, kind change) / touch and bulk-touch (FSET, EXPIRE, PERSIST: same geometry value in a new object, as cmdFSET/cmdEXPIRE/cmdPERSIST do) / delete / bulk-delete (id run, spatial region, every other) / bulk-move / bulk-insert / query actions; query areas (BOUNDS, CIRCLE, SECTOR, TILE, QUADKEY, HASH, POINT, GET key id, OBJECT geojson, each optionally CLIPBY 1-2 rectangles; SPARSE 1-4) take their edges from the same pool. One evaluation = one query compared as an id set with the index-free evaluation over every object; every delivered object must also be the current object of its id (in-package: pointer identity with Get; server: field f shown by the POINTS form of the same search equals the last FSET). Non-trivial: the index-free set is neither empty nor everything AND the history has >=1 delete and >=1 overwrite AND >=1 live object whose float64 box is not float32-representable; distinct by hash of (whole history so far, query)."
 
 func TestC02_Collection(t *testing.T) {
 	c := ev.New("C02", "collection", "exploration")
